@@ -264,7 +264,7 @@ Qed.
 Print Assumptions C04_refusals_and_frame.
 
 (** ---- the source ---- *)
-Theorem C04_source_matches_model : handler_traces = model_traces.
+Theorem C04_source_matches_model : handler_traces_alpha = model_traces.
 Proof. exact HandlerGen_matches_model. Qed.
 Print Assumptions C04_source_matches_model.
 
